@@ -245,6 +245,31 @@ def run(repo, rep, tier):
         ok = args[:1] == ['v'] and ("'big'" in args or kws.get('byteorder') == "'big'") and kws.get('signed') == 'True'
         rep.check('words', 'read_mpint2 decodes the whole string as big-endian two\'s complement', ok, n, 'int.from_bytes arguments: %s %s' % (args, kws))
 
+    # the multi-precision WRITER fills every 64-bit word it allocates (the sign of a negative value lives in the top word)
+    cm = repo.func('writebuf', 'WriteBuf._create_mpint')
+    rep.saw(cm)
+    alloc = None
+    for n in walk_no_nested(cm):
+        if isinstance(n, ast.Assign):
+            tg, vl = n.targets[0], n.value
+            pairs = list(zip(tg.elts, vl.elts)) if isinstance(tg, ast.Tuple) and isinstance(vl, ast.Tuple) else [(tg, vl)]
+            for a, b in pairs:
+                if isinstance(b, ast.BinOp) and isinstance(b.op, ast.Mult) and isinstance(b.left, ast.List) and unparse(b.left) == '[0]':
+                    alloc = (unparse(a), unparse(b.right), n)
+    if alloc is None:
+        raise AnalysisError('word array allocation `[0] * n` not found in _create_mpint')
+    arr, size, anode = alloc
+    floops = [n for n in walk_no_nested(cm) if isinstance(n, ast.For) and any(isinstance(x, ast.Assign) and isinstance(x.targets[0], ast.Subscript) and unparse(x.targets[0].value) == arr for x in n.body)]
+    ok = len(floops) == 1 and unparse(floops[0].iter) in ('range(%s)' % size, 'range(len(%s))' % arr)
+    rep.check('words', '_create_mpint writes every word it allocates (%s words)' % size, ok, floops[0] if floops else cm,
+              'the word loop iterates %s but the array has %s words: for a negative value whose bit length is a multiple of 64 the top (sign) word stays 0 and the value is encoded as positive' % (unparse(floops[0].iter) if floops else '?', size))
+    if floops:
+        st = [x for x in floops[0].body if isinstance(x, ast.Assign) and isinstance(x.targets[0], ast.Subscript)]
+        ok = len(st) == 1 and unparse(st[0].targets[0].slice) == '%s - %s - 1' % (size, unparse(floops[0].target)) and unparse(st[0].value) == 'n & 18446744073709551615'
+        sh = [x for x in floops[0].body if isinstance(x, ast.AugAssign) and isinstance(x.op, ast.RShift) and unparse(x.value) == '64']
+        rep.check('words', 'words are written most-significant first, 64 bits at a time with an arithmetic shift', ok and len(sh) == 1, floops[0], '_create_mpint word store changed')
+    fm = [n for n in walk_no_nested(cm) if isinstance(n, ast.Call) and isinstance(n.func, ast.Attribute) and n.func.attr == 'format' and isinstance(n.func.value, ast.Constant)]
+    rep.check('words', 'pack format holds the same number of 64-bit words', len(fm) == 1 and fm[0].func.value.value == '>{}Q' and unparse(fm[0].args[0]) == size, fm[0] if fm else cm, 'pack format word count differs from the allocation')
     # ---- rule 4: framing ---------------------------------------------------------------------------------------------------------
     sp = F('ssh_socket', 'SSH_Socket.send_packet')
     gp = F('dheat', 'DHEat.get_padding')
